@@ -128,6 +128,7 @@ type K struct {
 	Diverged bool
 
 	tasks    map[uint64]*Task
+	rootGid  uint64 // the kernel's own goroutine: scheduling points reached on it (scenario set-up, oracles) pass through
 	start    time.Time
 	taskN    int
 	last     *Task
@@ -152,6 +153,7 @@ func New(cfg Config) *K {
 	}
 	k := &K{cfg: cfg, tasks: map[uint64]*Task{}, Stats: map[string]int{}, digest: 1469598103934665603}
 	k.start = time.Now()
+	k.rootGid = gid()
 	k.Sched = rand.New(rand.NewPCG(cfg.Seed, 0x5ced))
 	k.Env = rand.New(rand.NewPCG(cfg.Seed, 0xe17))
 	if cfg.Strategy == StratPCT {
@@ -207,6 +209,9 @@ func (k *K) unlock() { k.mu.Unlock(); raceEnable() }
 //go:norace
 func (k *K) Block(r *Req) {
 	r.gid = gid()
+	if r.gid == k.rootGid {
+		return
+	}
 	r.wake = make(chan struct{}, 1)
 	k.lock()
 	if k.aborting {
